@@ -1,7 +1,10 @@
 use crate::{hash::Hash, KDF};
 use hmac::Hmac;
 use pbkdf2::{password_hash::SaltString, pbkdf2};
+#[cfg(not(bsv_verif))]
 use rand_core::OsRng;
+#[cfg(bsv_verif)]
+use crate::verif_hooks::SimOsRng as OsRng;
 use sha1::Sha1;
 use sha2::{Sha256, Sha512};
 
